@@ -46,6 +46,7 @@ type Exec struct {
 	// model state used by intrinsics
 	locks    map[*Value]int
 	syncMaps map[*Value]*[]syncMapEntry
+	pgRegistered map[*Value][]*Value
 	ctxCanceled Value
 	foot     *footprint
 	misc     map[string]Value
